@@ -9,21 +9,32 @@ def run_scenarios(ctx, scens, labels, family, profile="debug", known_class=None)
     if not scens:
         return {}
     rendered = {s.name: s.render() for s in scens}
-    txt = "\n".join(l for s in scens for l in rendered[s.name]) + "\n"
     t = time.time()
-    try:
-        p = subprocess.run([ctx.bins[profile], "sim"], input=txt.encode(), stdout=subprocess.PIPE,
-                           stderr=subprocess.PIPE, timeout=3000)
-        out = p.stdout.decode("utf-8", "replace").splitlines()
-        rc = p.returncode
-    except subprocess.TimeoutExpired:
-        out, rc = [], 124
+    # shards: the harness reads a whole script before it starts; thousands of scenarios in one process hit
+    # its 1 GiB allocation limit (thorough tier)
+    CH = 300
+    chunks = [scens[i:i + CH] for i in range(0, len(scens), CH)]
+    def one(chunk):
+        txt = "\n".join(l for s in chunk for l in rendered[s.name]) + "\n"
+        try:
+            p = subprocess.run([ctx.bins[profile], "sim"], input=txt.encode(), stdout=subprocess.PIPE,
+                               stderr=subprocess.PIPE, timeout=3000)
+            return p.stdout.decode("utf-8", "replace").splitlines(), p.returncode, p.stderr.decode("utf-8", "replace")[-500:]
+        except subprocess.TimeoutExpired:
+            return [], 124, "timeout"
+    import concurrent.futures as cf
+    out, rc, err = [], 0, ""
+    with cf.ThreadPoolExecutor(max_workers=min(6, max(1, len(chunks)))) as ex:
+        for o, r, e in ex.map(one, chunks):
+            out += o
+            if r != 0:
+                rc, err = r, e
     res = parse_output(out)
     st = ctx.cov["monitors"].setdefault(family, {"scenarios": 0, "ops": 0, "frames": 0, "rollbacks": 0, "hits": 0, "wall_s": 0.0})
     st["wall_s"] = round(st["wall_s"] + time.time() - t, 2)
     if rc != 0 or len(res) < len(scens):
         ctx.hit("harness-crash", "the simulation harness died (rc=%s) while running family %s: %d of %d scenarios finished" % (rc, family, len(res), len(scens)),
-                {"level": "sim", "family": family, "stderr": (p.stderr.decode()[-500:] if rc != 124 else "timeout")})
+                {"level": "sim", "family": family, "stderr": err})
     for s in scens:
         r = res.get(s.name)
         if r is None:
